@@ -37,7 +37,7 @@ BRANCHES = [
     'distribute:total-0', 'aggregate:ok', 'aggregate:length-mismatch-error',
     'kwCall:early-return(mean 0)', 'kwCall:overwrite',
     'minMax:ok', 'inE:no-range', 'inE:range', 'inBand:event-on-closed-edge', 'band:source-inside-coverage',
-    'band:source-outside-coverage', 'batchedIdx:one-batch', 'batchedIdx:several-batches', 'batchedIdx:batch-size-0-error',
+    'band:source-outside-coverage', 'batchedIdx:one-batch', 'batchedIdx:several-batches', 'batchedIdx:last-batch-shorter', 'batchedIdx:batch-size-0-error',
     'groupCands:no-candidate-for-a-source', 'tableStep:several-(group,dataset)-pairs', 'normalise:ok',
     'generate:total-0', 'generate:one-dataset-drawn', 'generate:several-datasets-drawn', 'genShgs:several-groups-in-a-dataset',
     'genGroup:nothing-invalid', 'genGroup:redraw', 'redraw:one-round', 'redraw:several-rounds',
@@ -316,6 +316,8 @@ def _mc_branches(run_):
     for g, G in enumerate(c['groups']):
         BR['inE:no-range' if G['erange'] is None else 'inE:range'] += 1
         BR['batchedIdx:one-batch' if len(G['sources']) <= int(G.get('batch', 128)) else 'batchedIdx:several-batches'] += 1
+        if len(G['sources']) > int(G.get('batch', 128)) and len(G['sources']) % int(G.get('batch', 128)):
+            BR['batchedIdx:last-batch-shorter'] += 1
         for j, f in enumerate(run_.mcs):
             L_, U_ = float(np.min(f['sin_true_dec'])), float(np.max(f['sin_true_dec']))
             for k, s_ in enumerate(G['sources']):
@@ -419,14 +421,14 @@ def _dec_with_sin(x):
     return None
 
 
-def gen_mc_case(rng, small=False, force_simple=False):
-    if not force_simple and rng.random() < 0.3:
+def gen_mc_case(rng, small=False, force_simple=False, force=None):
+    if not force_simple and force is None and rng.random() < 0.3:
         c = _gen_dyadic_case(rng)
         if c is not None:
             return c
     simple = force_simple or rng.random() < 0.15       # one dataset, one group, one source, mild rejection: redraws that end in one round
-    nds = 1 if simple else rng.choice([1, 2, 2, 3])
-    ngr = 1 if simple else rng.choice([1, 1, 2, 3, 4])
+    nds = 1 if (simple or force == 'three_groups') else rng.choice([1, 2, 2, 3])
+    ngr = 1 if simple else (rng.choice([3, 4]) if force == 'three_groups' else rng.choice([1, 1, 2, 3, 4]))
     dss = []
     for j in range(nds):
         lo = rng.choice([-1.0, -0.9, -0.5, -0.2])
@@ -437,11 +439,11 @@ def gen_mc_case(rng, small=False, force_simple=False):
     U = min(d['sin_hi'] for d in dss)
     groups = []
     for g in range(ngr):
-        ns = 1 if simple else (rng.choice([1, 1, 2]) if ngr >= 3 else rng.choice([1, 2, 3]))
-        hbw = 0.2 if simple else rng.choice([0.02, 0.05, 0.1, math.sin(math.radians(1)) * 3])
+        ns = 1 if simple else (3 if force == 'short_batch' else rng.choice([1, 1, 2]) if ngr >= 3 else rng.choice([1, 2, 3]))
+        hbw = 0.2 if (simple or force == 'three_groups') else rng.choice([0.02, 0.05, 0.1, math.sin(math.radians(1)) * 3])
         srcs = []
         for k in range(ns):
-            kind = 'in' if simple else rng.choice(['in', 'in', 'edge_lo', 'edge_hi', 'at_edge', 'outside', 'pole'])
+            kind = 'in' if (simple or force == 'three_groups') else rng.choice(['in', 'in', 'edge_lo', 'edge_hi', 'at_edge', 'outside', 'pole'])
             if kind == 'outside':            # source outside the MC coverage (band leaves the coverage, maybe empty)
                 x = rng.choice([L - 0.3 * rng.random(), U + 0.3 * rng.random()])
             elif kind == 'pole':             # source exactly at / within 1e-13 of a celestial pole
@@ -463,7 +465,7 @@ def gen_mc_case(rng, small=False, force_simple=False):
             srcs[0] = (srcs[0][0], srcs[0][1], 1.0)
         groups.append({'sources': srcs, 'gamma': rng.choice([2.0, 2.5, 3.0]), 'Phi0': rng.choice([1.0, 2.5]),
                        'hbw': hbw, 'erange': rng.choice([None, None, (1e2, 1e5), (10 ** 2.5, 10 ** 5.5)]),
-                       'batch': rng.choice([128, 128, 1, 2])})
+                       'batch': (2 if force == 'short_batch' else rng.choice([128, 2, 2, 1]) if ns == 3 else rng.choice([128, 128, 1, 2]))})
     if nds > 1 and rng.random() < 0.15:
         dss[rng.randrange(nds)]['livetime'] = 0.0          # a dataset without live time gets no event
     for d in dss:
@@ -475,6 +477,8 @@ def gen_mc_case(rng, small=False, force_simple=False):
          'vsel': rng.random()}
     if simple:
         c.update(n=rng.choice([2, 3, 4, 6]), reject=0.2, vfield=rng.choice(['log_energy', 'ang_err']))
+    if force == 'three_groups':
+        c.update(n=rng.choice([30, 50]), reject=rng.choice([0.0, 0.2]))
     if rng.random() < 0.3:
         c['vfield2'] = rng.choice([f for f in ('log_energy', 'ang_err', 'sin_dec') if f != c['vfield']])
     if rng.random() < 0.25:
@@ -1727,7 +1731,8 @@ def _run(ctx):
     mc_runs, all_lines = [], []
     it = 0
     while it < ctx.n(30, 400):
-        c = gen_mc_case(rng, small=not ctx.thorough, force_simple=(it in (1, 2, 3, 4)))
+        c = gen_mc_case(rng, small=not ctx.thorough, force_simple=(it in (1, 2, 3, 4)),
+                        force=('three_groups' if it in (5, 6) else 'short_batch' if it == 7 else None))
         if it == 0:
             c['n'] = 0                       # directed: nothing requested
         if not _ref_table(c, _mc_fields(c))[0]:
